@@ -32,6 +32,7 @@ type Iter struct {
 	kt, vt types.Type
 	str    *Term // string iteration (unsupported beyond havoc)
 	instr  *ssa.Range
+	mt     *types.Map
 }
 
 type Obligation struct {
@@ -57,7 +58,7 @@ type Engine struct {
 	P  *Program
 	tb *TermBank
 
-	facts   []*Term
+	facts   []fact
 	obls    []*Obligation
 	oblSeen map[string]int
 
@@ -87,6 +88,7 @@ type Engine struct {
 	arithChecked map[*ssa.Function]bool
 	iterCount    int
 	retMemo      map[*ssa.Function]*retOrigin
+	negMemo      map[*Term][]*Term
 }
 
 func NewEngine(P *Program) *Engine {
@@ -95,7 +97,7 @@ func NewEngine(P *Program) *Engine {
 		typeIDs: map[string]int{}, typeByID: map[int]types.Type{}, strLitText: map[string]string{},
 		assumption: map[string]bool{}, inlined: map[string]bool{}, usedCtr: map[string]bool{}, funcsSeen: map[string]bool{},
 		writeMemo: map[string]*writeSet{}, loopInfo: map[*ssa.Function]*loopInfo{}, globalRefs: map[string]*Term{}, maxDepth: 60,
-		closureByRef: map[*Term]*Closure{}, retMemo: map[*ssa.Function]*retOrigin{}, arithChecked: map[*ssa.Function]bool{}}
+		closureByRef: map[*Term]*Closure{}, retMemo: map[*ssa.Function]*retOrigin{}, negMemo: map[*Term][]*Term{}, arithChecked: map[*ssa.Function]bool{}}
 	tb := E.tb
 	tb.DeclSort(SRef)
 	tb.DeclSort(SUnit)
@@ -130,6 +132,10 @@ type Frame struct {
 	invOf       *Frame            // invariant evaluation: frame whose locals are referenced
 }
 
+type fact struct {
+	guard, body *Term
+}
+
 type abort struct{ msg string }
 
 func (E *Engine) fail(format string, args ...interface{}) {
@@ -140,7 +146,7 @@ func (E *Engine) addFact(st *State, f *Term) {
 	if f.IsTrue() {
 		return
 	}
-	E.facts = append(E.facts, E.tb.Implies(st.reach, f))
+	E.facts = append(E.facts, fact{st.reach, f})
 }
 
 func (E *Engine) addObl(fr *Frame, st *State, kind, label string, goal *Term, pos token.Pos) {
@@ -641,7 +647,7 @@ func (E *Engine) exec(fr *Frame, st *State, instr ssa.Instruction) {
 		mt := types.Unalias(E.subst(t.Type(), fr.tenv)).Underlying().(*types.Map)
 		ks, vs := E.sortOf(mt.Key(), fr.tenv), E.sortOf(mt.Elem(), fr.tenv)
 		r := E.newRef(st, "map", fr.spec)
-		dk, dks := E.mdomKey(ks)
+		dk, dks := E.mdomKey(mt, fr.tenv)
 		E.set(st, dk, tb.Store(E.get(st, dk, dks), r, tb.ConstArray(ArraySort(ks, SBool), tb.False())))
 		_ = vs
 		fr.env[t] = r
@@ -652,7 +658,7 @@ func (E *Engine) exec(fr *Frame, st *State, instr ssa.Instruction) {
 		cp := E.term(fr, t.Cap)
 		E.safety(fr, st, "makeslice", tb.And(tb.Cmp("<=", tb.Int(0), ln), tb.Cmp("<=", ln, cp)), t)
 		r := E.newRef(st, "slice", fr.spec)
-		ak, aks := E.arrKey(es)
+		ak, aks := E.arrKey(stp.Elem(), fr.tenv)
 		E.set(st, ak, tb.Store(E.get(st, ak, aks), r, tb.ConstArray(ArraySort(SInt, es), E.zero(stp.Elem(), fr.tenv))))
 		fr.env[t] = E.mkSlice(r, tb.Int(0), ln, cp)
 	case *ssa.MakeChan:
@@ -745,14 +751,14 @@ func (E *Engine) indexAddr(fr *Frame, st *State, t *ssa.IndexAddr) Val {
 	case *types.Slice:
 		s := E.term(fr, t.X)
 		E.safety(fr, st, "index", tb.And(tb.Cmp("<=", tb.Int(0), i), tb.Cmp("<", i, E.slcLen(s))), t)
-		k, ks := E.arrKey(E.sortOf(tt.Elem(), fr.tenv))
+		k, ks := E.arrKey(tt.Elem(), fr.tenv)
 		return &Addr{kind: aElem, key: k, ks: ks, ref: E.slcArr(s), idx: tb.Arith("+", E.slcOff(s), i), typ: tt.Elem()}
 	case *types.Pointer:
 		arr := types.Unalias(tt.Elem()).Underlying().(*types.Array)
 		p := E.term(fr, t.X)
 		E.safety(fr, st, "nil", tb.Not(tb.Eq(p, E.null())), t)
 		E.safety(fr, st, "index", tb.And(tb.Cmp("<=", tb.Int(0), i), tb.Cmp("<", i, tb.Int(arr.Len()))), t)
-		k, ks := E.arrKey(E.sortOf(arr.Elem(), fr.tenv))
+		k, ks := E.arrKey(arr.Elem(), fr.tenv)
 		return &Addr{kind: aElem, key: k, ks: ks, ref: p, idx: i, typ: arr.Elem()}
 	}
 	E.fail("indexaddr on %s", xt)
@@ -813,6 +819,15 @@ func (E *Engine) assumeLoaded(fr *Frame, st *State, v *Term, t types.Type) {
 			return
 		}
 		E.addFact(st, E.wellTyped(v, t, fr.tenv))
+		if v.sort == SSlc {
+			E.addFact(st, E.exists(st, E.slcArr(v)))
+		}
+	case SRef:
+		// heap closedness: a reference read from memory is nil or refers to an existing object
+		if v.kind == kConst {
+			return
+		}
+		E.addFact(st, E.exists(st, v))
 	}
 }
 
